@@ -335,8 +335,12 @@ pub fn run() {
                 ros.clear();
                 plains.clear();
                 shardeds.clear();
-                for _ in 0..nhandles {
+                for hidx in 0..nhandles {
                     let mut b = CacheBuilder::new();
+                    if hidx % 2 == 0 {
+                        // a builder that already produced a cache: take() leaves it as new
+                        let _ = b.take().build();
+                    }
                     let mut rb = ReadOnlyCacheBuilder::new();
                     match cfg.writer {
                         WriterCfg::None => {}
@@ -374,7 +378,10 @@ pub fn run() {
                             }
                         }
                     }
-                    b.auto_sync(cfg.autosync);
+                    // auto_sync is on unless switched off
+                    if !cfg.autosync {
+                        b.auto_sync(false);
+                    }
                     match cfg.checker.as_str() {
                         "byteeq" => {
                             b.byte_equality_checker();
